@@ -16,12 +16,19 @@
    * C04_view_at_build_start_is_the_cleaned_tree: BInv holds when user code starts, and the
      view then IS the reference tree ref_clean (previous outputs, cache file and emptied
      created directories gone), entry by entry.
-   Also proved (ViewPres/ViewFrame/ViewPrepare.v): cache lookups and replays (overlay case)
-   preserve BInv and the view; claiming, finishing, aborting a target and creating its
-   directories preserve BInv.  NOT proved (stated as Props in ViewC04.v): BInv along the error
-   path of build_file (needs a counting invariant XInv, written out there), _make_room, and
-   hence BInv for every reachable world; side conditions: creatable names (no over-long
-   component), trees shallower than the walk fuel, a well-formed previous cache (old_ok).
+   * C04_every_answer_during_a_build (Proofs/ViewX*.v): the stronger invariant XInv (counting
+     law of BuildDirs relative to the live targets) holds in EVERY world reachable by running
+     any program - success and failure paths of build_file, failing _make_dirs, _make_room,
+     subbuild - so every query asked at any point of a fault-free build answers like POSIX on
+     the view.  Proved unconditionally when the previous cache holds no operation records
+     (first builds); for arbitrary previous caches relative to two statements about cache
+     hits (hit_statement / sbhit_statement in ViewXC04.v: adoption of a recorded subtree) that
+     are not proved yet;
+   * C04_overlay_answers: during the validation of cached results (overlay of created files)
+     exists / is_file / is_dir / list_dir answer like POSIX on the overlay tree (walk, get_size,
+     read against an overlay: not proved).
+   Side conditions: creatable names (no over-long component), trees shallower than the walk
+   fuel (model artefact), a well-formed previous cache (old_ok), no injected fault.
    Those parts, and the tie to the code, are decided by T2/T3 (every answer of every
    generated history is compared with the reference answer). *)
 From Coq Require Import List String Bool.
@@ -29,7 +36,9 @@ From FB.Base Require Import PyVal Fs.
 From FB.Model Require Import Types Monad CreatedFiles BuildDirs SimpleOps Builder.
 From FB.Spec Require Import Ref.
 From FB.Model Require Import Build.
-From FB.Proofs Require Import ReplayLaws ViewDefs ViewLemmas ViewScan ViewQueries ViewAnswers ViewInit ViewClean.
+From FB.Spec Require Import Prog.
+From FB.Model Require Import Run.
+From FB.Proofs Require Import ReplayLaws ViewDefs ViewLemmas ViewScan ViewQueries ViewAnswers ViewInit ViewClean ViewXDefs ViewXOld ViewXRun ViewXSetup ViewXReach ViewOverlay ViewOverlay2 ViewXRun.
 Import ListNotations.
 Open Scope m_scope.
 
@@ -70,6 +79,22 @@ Theorem C04_view_at_build_start_is_the_cleaned_tree : forall w cachefile old nm 
   forall p, lookup (view_fs (start_world w cachefile old nm vers)) p =
             lookup (ref_clean (w_fs w) cachefile (pv0 old nm)) p.
 Proof. exact view_start_is_ref_clean. Qed.
+
+Theorem C04_every_answer_during_a_build : forall w0 cachefile old nm vers pr subs q wq,
+  fs_wf (w_fs w0) -> old_ok old cachefile -> norec old -> w_faults w0 = [] ->
+  AskAt pr None subs (start_world w0 cachefile old nm vers) q wq ->
+  path_ok (spec_query_path q) = true ->
+  (forall p c, q <> QRead p c) ->
+  (forall p td, q = QWalk p td -> vdir wq p = true -> maxlen (w_fs wq) < walk_fuel + List.length p) ->
+  BInv wq /\ yields (exec_query q None) wq (to_res (spec_answer (view_fs wq) q)).
+Proof. exact reachable_answers_view. Qed.
+
+Theorem C04_overlay_answers : forall w c q, BInv w -> CInv w c ->
+  pok w (spec_query_path q) ->
+  (forall d, q = QListDir d -> forall n, In n (cf_list_dir c d) -> pok w (n :: d)) ->
+  match q with QExists _ | QIsFile _ | QIsDir _ | QListDir _ => True | _ => False end ->
+  yields (exec_query q (Some c)) w (to_res (spec_answer_raw (overlay_fs w c) q)).
+Proof. exact exec_query_overlay. Qed.
 
 Theorem C04_queries_read_only : forall q cf w w' r, exec_query q cf w = (w', r) -> same_but_view w w'.
 Proof. exact query_footprint. Qed.
